@@ -18,6 +18,8 @@ PROP = {'technique': 'property-based testing (rapid) of the rate negotiation lat
          'type in {"",bbr,BBR,reno,Reno} x BBR profile in {"",standard,conservative,aggressive + case variants} on each side, '
          'DisableLossCompensation on/off on each side, UDP on/off. Header cells: Hysteria-CC-RX missing, "", abc, -1, 1e9, 2^64, " 5", '
          '+70000, 0x10000, 65536.0, 26-digit overflow, auto/AUTO/Auto/"auto ", lattice decimals with/without leading zeros. '
+         'Raw-client cells are followed by 0-2 further auth POSTs on the same connection (new Hysteria-CC-RX from the same cells, good or '
+         'wrong credentials): the installed controller must not change and no second Connect may be reported. '
          'Non-trivial: on at least one side both limits non-zero and different, or a special value (0 / auto / ignore) against a non-zero '
          'opposite limit; header cells also when the header is not a plain decimal. Distinct = distinct full configuration.',
  'assumptions': ['loopback UDP, self-signed certificate generated in the harness, client InsecureSkipVerify',
